@@ -8,7 +8,7 @@ export GOFLAGS=-mod=mod GOPROXY=off GOSUMDB=off GOTOOLCHAIN=local
 WT=/tmp/adv2/confirm-$$
 git -C /repo worktree add -q --detach $WT HEAD || exit 2
 trap 'git -C /repo worktree remove --force $WT; git -C /repo worktree prune' EXIT
-pkgdir() { case "$1" in generic_test|generic) echo driver/generic;; network_test|network) echo driver/network;; netconf_test|netconf) echo driver/netconf;; response_test|response) echo response;; platform_test|platform) echo platform;; util_test|util) echo util;; channel_test|channel) echo channel;; transport_test|transport) echo transport;; *) echo "";; esac; }
+pkgdir() { case "$1" in generic_test|generic) echo driver/generic;; network_test|network) echo driver/network;; netconf_test|netconf) echo driver/netconf;; response_test|response) echo response;; platform_test|platform) echo platform;; util_test|util) echo util;; channel_test|channel) echo channel;; options_test|options) echo driver/options;; transport_test|transport) echo transport;; *) echo "";; esac; }
 for G in "$@"; do
  for P in $G/survivor-*.diff; do
   b=$(basename $P .diff); ID=$(echo $b | cut -d- -f2); N=$(echo $b | cut -d- -f3)
